@@ -16,7 +16,7 @@ StepOfImpl(s, r) == LET x == S!CallStep(s, r) IN
                     IF x.ok THEN [ok |-> Observed(x.s, r) /\ {r.freed[i] : i \in 1..Len(r.freed)} = x.freed, st |-> x.s]
                     ELSE [ok |-> FALSE, st |-> s]
 TraceLog == ndJsonDeserialize(IOEnv.TRACE)
-T == INSTANCE TraceBase WITH Log <- TraceLog, InitSt <- <<>>, StepOf <- StepOfImpl
+T == INSTANCE TraceBase WITH Log <- TraceLog, InitSt <- <<>>, StepOf <- StepOfImpl, ResyncAtNew <- TRUE
 Spec == T!Spec
 Done == T!Done
 ====
